@@ -1,6 +1,7 @@
 package rules
 
 import (
+	"fmt"
 	"go/token"
 
 	"golang.org/x/tools/go/ssa"
@@ -11,7 +12,7 @@ import (
 func init() {
 	register("C03", PropCheck{
 		Title:      "Client input is routed by the first matching INCMP, once",
-		Explain:    "Instruction order gives 'first matching'; decided structurally are the gating clauses: (R1) in the INCMP handler every path to the navigation dispatcher passes the 'INMATCH unset' edge (no second move once a match is recorded); (R2) every path to the dispatcher passes SetFlag(INMATCH); (R3) constant resets of INMATCH occur only in Vm.Run behind the 'WAIT was set' (resume) edge; (R4) the move is only reached through the equality edge of a comparison between the decoded selector and State.GetInput(), or the wildcard edge (selector == \"*\"), and the moved-to target is the decoded symbol; (R5) the dead-code check turns unmatched input into WithError(NewInvalidInputError(GetInput())) and MOVE _catch, and Run consults it whenever code runs out; (R6) on the IndexError edge ('previous' at the first page) the handler neither resets the renderer nor fetches code and sets READIN again; (R7) the bytes recorded by State.SetInput in the engine are the Exec parameter itself (or a saved previous input), never a transformed copy.",
+		Explain:    "Instruction order gives 'first matching'; decided structurally are the gating clauses: (R1) in the INCMP handler every path to the navigation dispatcher passes the 'INMATCH unset' edge (no second move once a match is recorded); (R2) every path to the dispatcher passes SetFlag(INMATCH); (R3) constant resets of INMATCH occur only in Vm.Run behind the 'WAIT was set' (resume) edge; (R4) the move is only reached through the equality edge of a comparison between the decoded selector and State.GetInput(), or the wildcard edge (selector == \"*\"), and the moved-to target is the decoded symbol; (R5) the dead-code check turns unmatched input into WithError(NewInvalidInputError(GetInput())) and MOVE _catch, and Run consults it whenever code runs out; (R6) on the IndexError edge ('previous' at the first page) the handler neither resets the renderer nor fetches code and sets READIN again; (R7) the bytes recorded by State.SetInput in the engine are the Exec parameter itself (or a saved previous input), never a transformed copy; (R10) State.Restart, which re-initialises the reserved flag byte (INMATCH, READIN) and the recorded input, is called only by the engine's session restart - never from code reachable from Vm.Run (added after seeded change C03-E, where Rewind restarted the state in the middle of INCMP routing); (R11) external code cannot clear INMATCH or READIN: every flag write with a run-time index is behind the write filter (C06 R1, shared; added after seeded change C03-G); (R12) the destructive getter State.GetCode, which empties the pending INCMP lines, is called only by methods of DefaultEngine - its code fetch and its reset (added after C03-H, a debug dump that read the pending code with it).",
 		NotDecided: "equivalence of whole transcripts with a reference router; programs whose INCMP lines are reached through CATCH/MOVE chains are covered only as far as the per-handler gates go.",
 		Run:        runC03,
 	})
@@ -39,6 +40,9 @@ func runC03(w *core.World, r *core.Report) {
 	r.Rule("R6", "IndexError edge: no renderer reset, no code fetch, READIN set again")
 	r.Rule("R7", "State.SetInput in the engine records the Exec parameter unmodified")
 	r.Rule("R8", "READIN is raised by the INCMP gate only while no match is recorded (or again on the refused-previous edge)")
+	r.Rule("R12", "the destructive code getter State.GetCode is called only by methods of DefaultEngine (code fetch, reset), never by diagnostics or other packages")
+	r.Rule("R11", "external code cannot clear INMATCH or READIN: every dynamic flag write is behind the write filter (C06 R1)")
+	r.Rule("R10", "State.Restart (which clears INMATCH, READIN and the recorded input) is called only by the engine's session restart")
 	r.Rule("R9", "the pending INCMP lines never live in memory shared with other sessions (C19 R2: borrowed bytecode is never written in place)")
 
 	fIn, ok1 := constOf(w, r, "state", "FLAG_INMATCH")
@@ -167,6 +171,29 @@ func runC03(w *core.World, r *core.Report) {
 	}
 	// ---- R9 -----------------------------------------------------------------------------------
 	checkBorrowedRule(w, r, "R9")
+	// ---- R10 ----------------------------------------------------------------------------------
+	checkRestartCallers(w, r, "R10")
+	// ---- R11 ----------------------------------------------------------------------------------
+	checkFlagWriteFilter(w, r, "R11")
+	// ---- R12 ----------------------------------------------------------------------------------
+	{
+		roles := resolveEngineRoles(w)
+		n, bad := 0, ""
+		var badPos token.Pos
+		for _, fn := range w.LibFuncs {
+			for _, c := range core.CallsTo(fn, "state.(*State).GetCode") {
+				n++
+				isEngineMethod := fn.Signature.Recv() != nil && core.TypeName(fn.Signature.Recv().Type()) == "*engine.DefaultEngine"
+				if !isEngineMethod {
+					bad = fmt.Sprintf("%s calls State.GetCode at %s", core.QName(fn), w.Pos(c.Pos()))
+					badPos = c.Pos()
+				}
+			}
+		}
+		_ = roles
+		r.Check(bad == "" && n > 0, "R12", "State.GetCode (destructive) is called only by methods of the engine", badPos, fmt.Sprintf("%d call site(s)", n),
+			"the pending INCMP lines are taken out of the state by something other than the code fetch of the next request (the getter empties State.Code): the next input is compared with nothing: "+bad)
+	}
 
 	// ---- R3 -----------------------------------------------------------------------------------
 	run := w.Func("vm", "(*Vm).Run")
